@@ -127,9 +127,9 @@ func init() {
 	always := func(o int) func(string, int) int { return func(string, int) int { return o } }
 
 	// K1: overlap
-	restartWord := func(length int, withB bool) func() {
+	restartWordOpt := func(length int, withB, delay bool) func() {
 		return func() {
-			k := newKeyed(always(iUntilCancelled), false, false)
+			k := newKeyed(always(iUntilCancelled), delay, false)
 			root, cancelRoot := context.WithCancel(context.WithValue(bg, ctxKey{}, 0))
 			defer cancelRoot()
 			k.SetContext(root, false)
@@ -145,7 +145,13 @@ func init() {
 				nletters = 10
 			}
 			for i := 0; i < length; i++ {
-				switch vsched.Choose(nletters) {
+				l := vsched.Choose(nletters)
+				if delay {
+					l = []int{0, 1, 2, 5, 3, 10}[l]
+				}
+				switch l {
+				case 10:
+					k.RemoveKey("a") // (release delay configured: the key lingers, its instance is cancelled)
 				case 8:
 					cancelRoot() // the context given to SetContext is cancelled from outside
 				case 9:
@@ -184,6 +190,13 @@ func init() {
 			}
 		}
 	}
+	restartWord := func(length int, withB bool) func() { return restartWordOpt(length, withB, false) }
+	eng.Register(&eng.Scenario{
+		Name: "keyed-restart-delay", Props: []string{"C07"}, ObsNames: stdObs,
+		Doc:   "Keyed with a release delay: SetContext; SetKey(a); then every word of length 3 over {RestartRoutine(a), ResetRoutine(a), SetContext(fresh,true|false), RestartAllRoutines, RemoveKey(a)}; the removal timer fires freely; instances return two steps after cancellation; per-key overlap oracle",
+		Quick: eng.Bounds{PB: 1, Delay: true}, Thorough: eng.Bounds{PB: 2, Delay: true, Cap: 60000000},
+		Body: restartWordOpt(3, false, true),
+	})
 	eng.Register(&eng.Scenario{
 		Name: "keyed-restart-word3", Props: []string{"C07"}, ObsNames: stdObs,
 		Doc:   "Keyed: SetContext; SetKey(a); then every word of length 3 over {RestartRoutine(a), ResetRoutine(a), SetContext(fresh,true|false), RestartAllRoutines, ClearContext}; instances return two steps after cancellation; per-key overlap oracle",
@@ -235,6 +248,62 @@ func init() {
 			vsched.Settle()
 			k.ClearContext()
 			vsched.Settle()
+		},
+	})
+	eng.Register(&eng.Scenario{
+		Name: "keyed-dataonly-race", Props: []string{"C07", "C06"}, ObsNames: stdObs, MustFinish: true, RacePB: 2,
+		Doc:   "Keyed / KeyedRefCount (choice) whose constructor returns a nil routine (data-only keys): T1 = ResetRoutine(a) or ResetAllRoutines (choice)  ||  T2 = GetKey(a); GetKeysWithData  ||  T3 = SetKey(a,true): readers see the data of the first or of the second construction, the key stays present, nothing ever runs",
+		Quick: eng.Bounds{PB: 2}, Thorough: eng.Bounds{PB: 3},
+		Body: func() {
+			ctor := func(key string) (keyed.Routine, int) {
+				return nil, int(vsched.CtrAdd(kCtors, 1))
+			}
+			var getKey func(string) (int, bool)
+			var reset, resetAll func()
+			var setKey func()
+			var withData func() []keyed.KeyWithData[string, int]
+			if vsched.Choose(2) == 0 {
+				k := keyed.NewKeyed(ctor)
+				k.SetContext(bg, false)
+				k.SetKey("a", true)
+				getKey, withData = k.GetKey, k.GetKeysWithData
+				reset, resetAll = func() { k.ResetRoutine("a") }, func() { k.ResetAllRoutines() }
+				setKey = func() { k.SetKey("a", true) }
+			} else {
+				k := keyed.NewKeyedRefCount(ctor)
+				k.SetContext(bg, false)
+				ref, _, _ := k.AddKeyRef("a")
+				defer ref.Release()
+				getKey, withData = k.GetKey, k.GetKeysWithData
+				reset, resetAll = func() { k.ResetRoutine("a") }, func() { k.ResetAllRoutines() }
+				setKey = func() { r, _, _ := k.AddKeyRef("a"); r.Release() }
+			}
+			all := vsched.Choose(2) == 1
+			T("T1", func() {
+				if all {
+					resetAll()
+				} else {
+					reset()
+				}
+			})
+			T("T2", func() {
+				d, ok := getKey("a")
+				if !ok || d < 1 || d > 2 {
+					fail("C06.getkey", "GetKey(a) returned (%d,%v) while the key is being reset: want the data of construction 1 or 2", d, ok)
+				}
+				kd := withData()
+				if len(kd) != 1 || kd[0].Key != "a" || kd[0].Data < 1 || kd[0].Data > 2 {
+					fail("C06.getkey", "GetKeysWithData returned %v while key a is being reset", kd)
+				}
+			})
+			T("T3", setKey)
+			vsched.Settle()
+			if d, ok := getKey("a"); !ok || d != 2 {
+				fail("C06.getkey", "after ResetRoutine of the data-only key a: GetKey returned (%d,%v), want the second construction's data", d, ok)
+			}
+			if vsched.Ctr(kCtors) != 2 {
+				fail("C06.getkey", "constructor called %d times, want 2 (SetKey / reset)", vsched.Ctr(kCtors))
+			}
 		},
 	})
 	eng.Register(&eng.Scenario{
@@ -314,6 +383,110 @@ func init() {
 		},
 	})
 
+	eng.Register(&eng.Scenario{
+		Name: "keyed-retry-perkey", Props: []string{"C07"}, ObsNames: stdObs,
+		Doc:   "Keyed with WithRetry(exponential config: 100ms, x2, no jitter): every constructed routine fails on its first run; SetKey(a); SetKey(b); ResetRoutine(a) (sequential, settled between): each routine object backs off on its own - the first retry interval of every one is the initial interval, and every key is running again at quiescence",
+		Quick: eng.Bounds{PB: 1}, Thorough: eng.Bounds{PB: 2},
+		Body: func() {
+			conf := &ubackoff.Backoff{BackoffKind: ubackoff.BackoffKind_BackoffKind_EXPONENTIAL, Exponential: &ubackoff.Exponential{InitialInterval: 100, Multiplier: 2, MaxInterval: 100000}}
+			ctor := func(key string) (keyed.Routine, int) {
+				n := int(vsched.CtrAdd(kCtors, 1))
+				first := true
+				return func(ctx context.Context) error {
+					out := iUntilCancelled
+					if first {
+						first, out = false, iReturnErr
+					}
+					return keyedInstance(ctx, key, out)
+				}, n
+			}
+			k := keyed.NewKeyed(ctor, keyed.WithRetry[string, int](conf))
+			k.SetContext(bg, false)
+			step := func(what string, ki int, act func()) bool {
+				seq := vsched.LastTimerSeq()
+				act()
+				vsched.Settle() // auto timers: the retry has happened
+				if vsched.LastTimerSeq() != seq+1 {
+					fail("C07.retry-lost", "%s: the new routine failed once but %d retry timers were armed, want 1", what, vsched.LastTimerSeq()-seq)
+					return false
+				}
+				if d := time.Duration(vsched.LastTimerDur()); d != 100*time.Millisecond {
+					fail("C07.retry-lost", "%s: the first retry of a fresh routine object was armed with %v, want the initial interval 100ms (back-off state is per routine)", what, d)
+					return false
+				}
+				if vsched.Ctr(kActiveA+ki) != 1 {
+					fail("C07.retry-lost", "%s: %d instances of the key executing at quiescence, want 1", what, vsched.Ctr(kActiveA+ki))
+					return false
+				}
+				return true
+			}
+			_ = step("SetKey(a)", 0, func() { k.SetKey("a", true) }) &&
+				step("SetKey(b)", 1, func() { k.SetKey("b", true) }) &&
+				step("ResetRoutine(a)", 0, func() { k.ResetRoutine("a") })
+			k.ClearContext()
+			vsched.CtrSet(kRemovedA, 1)
+			vsched.Settle()
+		},
+	})
+	eng.Register(&eng.Scenario{
+		Name: "keyed-synckeys-shapes", Props: []string{"C07", "C06"}, ObsNames: stdObs,
+		Doc:   "Keyed with keys a and b running: SyncKeys with every argument shape over {a,b} of length <= 3 (duplicates included): when it returns every key outside the list has no live context, removed lists exactly those keys, every listed key is running at quiescence",
+		Quick: eng.Bounds{PB: 1}, Thorough: eng.Bounds{PB: 2},
+		Body: func() {
+			k := newKeyed(always(iUntilCancelled), false, false)
+			k.SetContext(bg, false)
+			k.SetKey("a", true)
+			k.SetKey("b", true)
+			vsched.Settle()
+			alpha := []string{"a", "b"}
+			var list []string
+			for n := vsched.Choose(4); n > 0; n-- {
+				list = append(list, alpha[vsched.Choose(2)])
+			}
+			want := map[string]bool{}
+			for _, x := range list {
+				want[x] = true
+			}
+			restart := vsched.Choose(2) == 1
+			added, removed := k.SyncKeys(append([]string{}, list...), restart)
+			for ki, key := range []string{"a", "b"} {
+				if !want[key] {
+					if l := liveKeyed(ki); l != 0 {
+						fail("C07.not-cancelled", "SyncKeys(%v) returned: key %q is not requested any more but %d instance(s) still have a live context", list, key, l)
+						return
+					}
+				}
+			}
+			var wantRem, wantAdd []string
+			for _, key := range []string{"a", "b"} {
+				if !want[key] {
+					wantRem = append(wantRem, key)
+				}
+			}
+			if !eqSet(removed, wantRem) || !eqSet(added, wantAdd) {
+				fail("C06.synckeys-result", "SyncKeys(%v) on {a,b} returned added=%v removed=%v, want added=%v removed=%v", list, added, removed, wantAdd, wantRem)
+				return
+			}
+			vsched.Settle()
+			for ki, key := range []string{"a", "b"} {
+				a := vsched.Ctr(kActiveA + ki)
+				if want[key] && a != 1 || !want[key] && a != 0 {
+					fail("C07.not-cancelled", "after SyncKeys(%v) and quiescence %d instance(s) of key %q are executing (requested=%v)", list, a, key, want[key])
+					return
+				}
+			}
+			var ks []string
+			for x := range want {
+				ks = append(ks, x)
+			}
+			if got := sortedKeys(k.GetKeys()); !eqSet(got, ks) {
+				fail("C06.keyset", "after SyncKeys(%v): GetKeys=%v", list, got)
+			}
+			k.ClearContext()
+			vsched.CtrSet(kRemovedA, 1)
+			vsched.Settle()
+		},
+	})
 	eng.Register(&eng.Scenario{
 		Name: "keyed-withretry", Props: []string{"C07"}, ObsNames: stdObs,
 		Doc:   "Keyed / KeyedRefCount built through the other option spellings (choice): WithRetry(constant back-off config), WithRetry(config) followed by WithRetry(nil) (retry disabled again), the WithLogger constructors with WithExitLogger: key a fails on its first run; with retry configured it runs again by quiescence, without it nothing runs it again; RemoveKey / reference release cancels it and nothing starts afterwards",
